@@ -18,7 +18,7 @@ from .abseval import ev, Unknown, Opaque, _BIN
 
 
 class Interp:
-    def __init__(self, call_hook=None, effect_names=(), budget=20000, resolver=None, depth=0, store_effects=()):
+    def __init__(self, call_hook=None, effect_names=(), budget=20000, resolver=None, depth=0, store_effects=(), attr_hook=None):
         """call_hook(call_node, args, env) -> (True, value) | None.  effect_names: callee names whose calls are
         observable effects (recorded with evaluated args)."""
         self.call_hook = call_hook
@@ -29,6 +29,8 @@ class Interp:
         self.resolver = resolver    # resolver(call node) -> FunctionDef of a repository helper to interpret in place (same receiver), or None
         self.store_effects = set(store_effects)   # attribute texts whose assignments are observable effects, recorded in order as ('store', (text, value), node)
         self.depth = depth
+        self._seen_calls = set()
+        self.attr_hook = attr_hook      # attr_hook(base value, attribute name, interp) -> (True, value) | None, for attribute loads whose text is not an environment fact
 
     # ---------------------------------------------------------------- expressions
     def value(self, node, env):
@@ -39,6 +41,15 @@ class Interp:
                 r = self._call(n, env)
                 if r is not None:
                     return r
+            if self.attr_hook is not None and isinstance(n, ast.Attribute) and isinstance(n.ctx, ast.Load) and unparse(n) not in env:
+                try:
+                    base = ev(n.value, env, hook)
+                except Unknown:
+                    base = None
+                if base is not None:
+                    r = self.attr_hook(base, n.attr, self)
+                    if r is not None:
+                        return r
             if isinstance(n, (ast.ListComp, ast.SetComp, ast.DictComp, ast.GeneratorExp)) and len(n.generators) == 1 and not n.generators[0].is_async:
                 g = n.generators[0]
                 seq = ev(g.iter, env, hook)
@@ -88,9 +99,25 @@ class Interp:
             raise Unknown('abstract evaluation of %s failed on an uncomputable operand (%s)' % (unparse(node)[:60], type(ex).__name__))
         return v
 
+    def _touch(self, node, env):
+        """Give the hook a chance to see calls nested inside an expression the interpreter could not evaluate as a whole (arguments of an unknown callee):
+        inner calls first, each at most once per statement, not inside comprehensions / lambdas (their variables are not bound here)."""
+        def rec(n):
+            if isinstance(n, (ast.ListComp, ast.SetComp, ast.DictComp, ast.GeneratorExp, ast.Lambda)):
+                return
+            for ch in ast.iter_child_nodes(n):
+                rec(ch)
+            if isinstance(n, ast.Call) and id(n) not in self._seen_calls:
+                try:
+                    self.value(n, env)
+                except Unknown:
+                    pass
+        rec(node)
+
     def _call(self, n, env):
         fn = n.func
         hook_args = None
+        self._seen_calls.add(id(n))
         if self.call_hook is not None:
             r = self.call_hook(n, env, self)
             if r is not None:
@@ -129,8 +156,48 @@ class Interp:
                 if fn.id == 'tuple':
                     return (True, tuple(seq))
                 return (True, list(reversed(list(seq))))
-        if isinstance(fn, ast.Name) and fn.id == 'any' and len(n.args) == 1:
-            return (True, any(self.value(n.args[0], env)))
+        if isinstance(fn, ast.Name) and fn.id in ('any', 'all') and len(n.args) == 1:
+            seq = self.value(n.args[0], env)
+            if isinstance(seq, (list, tuple, set)) and not any(isinstance(x, Opaque) for x in seq):
+                return (True, any(seq) if fn.id == 'any' else all(seq))
+            raise Unknown('%s() over an uncomputable sequence (%s)' % (fn.id, loc(n)))
+        if isinstance(fn, ast.Name) and fn.id == 'enumerate' and 1 <= len(n.args) <= 2:
+            seq = self.value(n.args[0], env)
+            start = self.value(n.args[1], env) if len(n.args) == 2 else 0
+            for k in n.keywords:
+                if k.arg == 'start':
+                    start = self.value(k.value, env)
+            if type(seq).__name__ in ('dict_keys', 'dict_values', 'dict_items') or isinstance(seq, dict):
+                seq = list(seq)
+            if isinstance(seq, (list, tuple)) and isinstance(start, int):
+                return (True, [(i, x) for i, x in enumerate(seq, start)])
+            raise Unknown('enumerate over an uncomputable sequence (%s)' % loc(n))
+        if isinstance(fn, ast.Name) and fn.id == 'range' and 1 <= len(n.args) <= 3 and not n.keywords:
+            args = [self.value(a, env) for a in n.args]
+            if all(isinstance(a, int) and not isinstance(a, bool) for a in args) and len(range(*args)) <= 4096:
+                return (True, list(range(*args)))
+            raise Unknown('range with uncomputable bounds (%s)' % loc(n))
+        if isinstance(fn, ast.Name) and fn.id == 'zip' and n.args and not n.keywords:
+            seqs = [self.value(a, env) for a in n.args]
+            if all(isinstance(q, (list, tuple)) for q in seqs):
+                return (True, [tuple(t) for t in zip(*seqs)])
+            raise Unknown('zip over uncomputable sequences (%s)' % loc(n))
+        if isinstance(fn, ast.Name) and fn.id == 'next' and 1 <= len(n.args) <= 2 and not n.keywords and isinstance(n.args[0], (ast.GeneratorExp, ast.Call)):
+            seq = self.value(n.args[0], env)
+            if isinstance(seq, (list, tuple)):
+                if seq:
+                    return (True, seq[0])
+                if len(n.args) == 2:
+                    return (True, self.value(n.args[1], env))
+            raise Unknown('next() over an uncomputable or exhausted sequence (%s)' % loc(n))
+        if isinstance(fn, ast.Name) and fn.id == 'iter' and len(n.args) == 1:
+            return (True, self.value(n.args[0], env))
+        if isinstance(fn, ast.Name) and fn.id == 'isinstance' and len(n.args) == 2:
+            v = self.value(n.args[0], env)
+            kinds = {'str': str, 'int': int, 'bytes': bytes, 'list': list, 'dict': dict, 'bool': bool, 'tuple': tuple, 'set': set}
+            ts = n.args[1].elts if isinstance(n.args[1], ast.Tuple) else [n.args[1]]
+            if not isinstance(v, Opaque) and all(isinstance(t, ast.Name) and t.id in kinds for t in ts):
+                return (True, isinstance(v, tuple(kinds[t.id] for t in ts)))
         if isinstance(fn, ast.Attribute) and fn.attr == 'copy' and not n.args:
             base = self.value(fn.value, env)
             if isinstance(base, (list, set)):
@@ -164,7 +231,7 @@ class Interp:
         missing = [p for p in params if p not in e2]
         if missing:
             raise Unknown('call of %s without a value for %s' % (callee.name, missing))
-        sub = Interp(self.call_hook, self.effect_names, self.budget, self.resolver, self.depth + 1, self.store_effects)
+        sub = Interp(self.call_hook, self.effect_names, self.budget, self.resolver, self.depth + 1, self.store_effects, self.attr_hook)
         finals = sub.run(callee.body, e2)
         if len(finals) != 1 or finals[0].get('<forks>'):
             raise Unknown('helper %s does not evaluate on a single path here (forks: %s)' % (callee.name, [f.get('<forks>') for f in finals][:2]))
@@ -178,6 +245,45 @@ class Interp:
         if isinstance(v, Opaque):
             raise Unknown('helper %s returns an uncomputable value' % callee.name)
         return v
+
+    def bind_values(self, call, func, env, skip_self=False):
+        """{parameter: evaluated argument} of a call to `func` -- positional, *sequence, keyword and **mapping arguments, declared defaults for the rest
+        (Opaque for what cannot be evaluated)."""
+        params = [x.arg for x in func.args.posonlyargs + func.args.args]
+        if skip_self and params and params[0] in ('self', 'cls'):
+            params = params[1:]
+
+        def val(n):
+            try:
+                return self.value(n, env)
+            except Unknown:
+                return Opaque()
+        pos = []
+        for a in call.args:
+            if isinstance(a, ast.Starred):
+                seq = val(a.value)
+                if not isinstance(seq, (list, tuple)):
+                    raise Unknown('*arguments of %s are not computable' % unparse(call)[:60])
+                pos.extend(seq)
+            else:
+                pos.append(val(a))
+        if len(pos) > len(params):
+            raise Unknown('more arguments than parameters in %s' % unparse(call)[:60])
+        out = dict(zip(params, pos))
+        for k in call.keywords:
+            if k.arg is None:
+                d = val(k.value)
+                if not isinstance(d, dict):
+                    raise Unknown('**arguments of %s are not computable' % unparse(call)[:60])
+                out.update(d)
+            else:
+                out[k.arg] = val(k.value)
+        nd = len(func.args.defaults)
+        allp = [x.arg for x in func.args.posonlyargs + func.args.args]
+        for p, d in zip(allp[len(allp) - nd:], func.args.defaults):
+            if p not in out and p in params:
+                out[p] = val(d)
+        return out
 
     def truth(self, node, env):
         """True / False / None (unknown)."""
@@ -279,6 +385,8 @@ class Interp:
         self.steps += 1
         if self.steps > self.budget:
             raise Unknown('path explosion in the list interpreter')
+        if not isinstance(st, (ast.If, ast.For, ast.While, ast.With, ast.Try)):
+            self._seen_calls = set()
         if isinstance(st, (ast.FunctionDef, ast.AsyncFunctionDef, ast.ClassDef, ast.Pass, ast.Import, ast.ImportFrom, ast.Global, ast.Nonlocal)):
             return [], [e]
         if isinstance(st, ast.Expr):
@@ -356,6 +464,7 @@ class Interp:
                     return [], [e]
                 if self._effectful(st, e):
                     raise Unknown('call with a tracked list as argument cannot be interpreted: %s (%s)' % (unparse(v)[:80], loc(v)))
+                self._touch(v, e)
                 return [], [e]
             return [], [e]
         if isinstance(st, (ast.Assign, ast.AnnAssign)):
@@ -366,6 +475,7 @@ class Interp:
             except Unknown:
                 if self._effectful(ast.Expr(value=st.value), e):
                     raise
+                self._touch(st.value, e)
                 val = Opaque()
             for t in (st.targets if isinstance(st, ast.Assign) else [st.target]):
                 self._assign(t, val, e)
